@@ -30,5 +30,10 @@ def run(F, X, rep):
     # "a free marker is written only when nothing is pending or complete": mark_failed is confined to wait==Ok(None) /
     # pay==Err (W2), which mean `nothing pending or complete` only if the provider honours C15-V* / C16-D
     import rules_provider as P
+    import rules_hh as H
+    if H.need_hh(C, rep, "C08-X"):
+        # the protocol above is per lifecycle: one lifecycle per hash, whose table entry is removed only by its own final answer
+        R.a3_one_lifecycle_per_entry(C, rep, "C08-X")
+        H.p3_answer_reaches_everyone(C, rep, "C08-X")
     P.v_wait_payment(C, rep, "C08-W6")
     P.d_dispatch(C, rep, "C08-W6")
